@@ -60,8 +60,6 @@ def get_spec():
     additional_static_traps = {
         "left_gate_zone_sites": left_traps,
         "right_gate_zone_sites": right_traps,
-        "top_reservoir_sites": top_reservoir,
-        "bottom_reservoir_sites": bottom_reservoir,
         "GL_blocks": GL_blocks,
         "GR_blocks": GR_blocks,
         "GL0_block": GL0_block,
@@ -82,12 +80,17 @@ def get_spec():
         "AOM1_block": AOM1_block,
     }
 
-    arch_spec.layout.static_traps.update(additional_static_traps)
-    arch_spec.layout.special_grid.update(additional_special_grids)
-    arch_spec.layout.has_cz.add("gate_zone")
-    arch_spec.layout.fillable.update(("GL0_block", "GL1_block"))
-    arch_spec.layout.has_local.update(
-        ("GL0_block", "GL1_block", "GR0_block", "GR1_block")
+    base_layout = arch_spec.layout
+    # build a new Layout so that the zone index (get_zone_id) covers the added
+    # zones and duplicate grids are rejected; extending the tables of the already
+    # constructed base layout would bypass both.
+    layout = spec.Layout(
+        static_traps={**base_layout.static_traps, **additional_static_traps},
+        fillable=base_layout.fillable | {"GL0_block", "GL1_block"},
+        has_cz=base_layout.has_cz | {"gate_zone"},
+        has_local=base_layout.has_local
+        | {"GL0_block", "GL1_block", "GR0_block", "GR1_block"},
+        special_grid={**base_layout.special_grid, **additional_special_grids},
     )
 
     _, logical_rows = GL0_block.shape
@@ -100,9 +103,11 @@ def get_spec():
         "code_size": code_size,
     }
 
-    arch_spec.int_constants.update(int_constants)
-
-    return arch_spec
+    return spec.ArchSpec(
+        layout=layout,
+        float_constants=dict(arch_spec.float_constants),
+        int_constants={**arch_spec.int_constants, **int_constants},
+    )
 
 
 @tweezer
